@@ -16,6 +16,7 @@ package raft
 
 import (
 	"bytes"
+	"errors"
 	"fmt"
 	"io"
 	"net"
@@ -168,6 +169,11 @@ func (r *replication) replicate(c *conn, req *appendReq) error {
 			// set by writer, if it is stopped after writing a request
 			// that is not reported in resultCh. valid once resultCh is closed
 			unreported bool
+
+			// set by writer, if it is stopped after failing to write a request,
+			// which is not reported in resultCh. the request might be partially
+			// written, so conn cannot be used anymore. valid once resultCh is closed
+			writeFailed bool
 		)
 		go func() {
 			defer func() {
@@ -186,6 +192,7 @@ func (r *replication) replicate(c *conn, req *appendReq) error {
 				select {
 				case <-stopCh:
 					unreported = err == nil
+					writeFailed = err != nil && err != log.ErrNotFound
 					return
 				case resultCh <- result{r.nextIndex - 1, err}:
 				}
@@ -222,6 +229,9 @@ func (r *replication) replicate(c *conn, req *appendReq) error {
 				if err := c.readResp(resp, r.deadline()); err != nil {
 					return err
 				}
+			}
+			if writeFailed {
+				return errors.New("raft: request is partially written")
 			}
 			return nil
 		}
